@@ -322,6 +322,7 @@ func (m *monitor) EnableKubeEventCb() {
 //
 // If namespace is empty, then informer is bounded to all namespaces.
 func (m *monitor) CreateInformersForNamespace(namespace string) ([]*resourceInformer, error) {
+	verifhook.Point("mon.createForNs.enter", m.Config.Metadata.MonitorId, namespace)
 	informers := make([]*resourceInformer, 0)
 	cfg := &resourceInformerConfig{
 		client:  m.KubeClient,
